@@ -1237,3 +1237,7 @@ mod test_path_to_term {
         );
     }
 }
+
+#[cfg(kani)]
+#[path = "/verif/kani/hpoterm.rs"]
+mod verif_kani;
